@@ -167,6 +167,10 @@ func (table *Table) Encode() []byte {
 			total += cov.EncodeLen()
 		}
 	}
+	if markAttachClassDefOffset > 0xFFFF || markGlyphSetsDefOffset > 0xFFFF ||
+		len(table.MarkGlyphSets) > 0xFFFF {
+		panic("GDEF table too large")
+	}
 
 	buf := make([]byte, 12, total)
 	// We always write table version 1.0:
